@@ -355,6 +355,8 @@ def find_urls(data: bytes) -> list[Node]:
         if not is_url(group):
             continue
         value, obfuscation = normalize_percent_encoding(group)
+        if not is_url(value):
+            continue  # normalization can turn an accepted host into one urlsplit rejects
         out.append(
             Node(
                 URL_TYPE,
